@@ -82,6 +82,9 @@ def gen_case(rng: Rng, i: int, tier: str):
             case["damage"] = rr.pick(["flip", "flip", "flip_many", None])
             case["sink"] = rr.pick(["factory", "factory", "path"])
             break
+    # the I/O block the workers read in: the default 1 MiB swallows these archives whole; small blocks make every worker come
+    # back to the file many times (more scheduling points) and let decoders finish before the last block is read
+    case["block"] = rng.sub("block").wpick([(5, None), (2, 64), (2, 4096)])
     return case
 
 
@@ -131,7 +134,7 @@ def _run_threads(py7zr, image, strat, sink, outdir, fail_name, nsessions=1):
 
     # extraction to a directory: every filesystem call of a worker is a scheduling point too
     fsy = FsYield(sched, outdir) if (outdir and sink != "factory") else contextlib.nullcontext()
-    with Seams(fs=fs, extra=extra), fsy:
+    with Seams(fs=fs, extra=extra, blocksize=_BLOCK[0]), fsy:
         try:
             if nsessions <= 1:
                 results.append(_one_extract(py7zr, sched, sink, outdir, fail_name))
@@ -197,7 +200,7 @@ def _run_plain(py7zr, image, kind, sink, outdir, fail_name, mp=False, order_seed
     extra = []
     if mp:
         extra = [(P, "Process", _make_process_class(Rng(order_seed, "mp")))]
-    with Seams(fs=fs, extra=extra, inline_threads=not mp):
+    with Seams(fs=fs, extra=extra, inline_threads=not mp, blocksize=_BLOCK[0]):
         try:
             target = rsess.READ_PATH if kind == "path" else SimRaw(fs.get(rsess.READ_PATH), readable=True)
             z = py7zr.SevenZipFile(target, "r", mp=mp)
@@ -270,9 +273,20 @@ def _make_process_class(rng):
     return SimProcess
 
 
+_BLOCK = [None]  # the I/O block size of the case (None = the library's 1 MiB), read by both runners
+
+
+def _block_of(case):
+    # derived from the case, so that older replay files (without the field) keep their meaning: the default block
+    if "block" in case:
+        return case["block"]
+    return None
+
+
 def run_case(case):
     py7zr = import_py7zr()
     res = {"evals": 0, "violations": [], "faults": {}, "probes": {}, "rejected": {}, "classes": {}, "sigs": [], "interleavings": [], "extra": {}}
+    _BLOCK[0] = _block_of(case)
     built = rsess.build_from_ref(case["ref"]) if "ref" in case else rsess.build_archive(case["archive"])
     if built.rejected or built.error is not None or built.image is None or built.nfolders < 2:
         res["extra"]["archive_skipped"] = 1
